@@ -1395,6 +1395,61 @@ func (m *Machine) isLibLen(f *types.Func) bool {
 	res = pure && asksLib
 	if res {
 		m.FuncsSeen[f.Name()] = true
+		// the extent of a body is the library's on every path: each success return hands out
+		// the first result of a library Len() (or of another length helper), not a length
+		// computed by hand (a shortcut "up to the first ]" knows nothing of strings and comments)
+		info := m.Pkg.TypesInfo
+		fromLib := func(e ast.Expr) bool {
+			e = ast.Unparen(e)
+			isLen := func(call *ast.CallExpr) bool {
+				c := m.callee(call)
+				return c != nil && ((c.Pkg() != m.Pkg.Types && c.Name() == "Len") || (c != f && c.Pkg() == m.Pkg.Types && m.isLibLen(c)))
+			}
+			if call, ok := e.(*ast.CallExpr); ok {
+				return isLen(call)
+			}
+			id, ok := e.(*ast.Ident)
+			if !ok {
+				return false
+			}
+			obj := info.ObjectOf(id)
+			found, other := false, false
+			ast.Inspect(fd.Body, func(n ast.Node) bool {
+				as, ok := n.(*ast.AssignStmt)
+				if !ok {
+					return true
+				}
+				for i, l := range as.Lhs {
+					if lid, ok := l.(*ast.Ident); ok && info.ObjectOf(lid) == obj {
+						if len(as.Rhs) == 1 && i == 0 {
+							if call, ok := ast.Unparen(as.Rhs[0]).(*ast.CallExpr); ok && isLen(call) {
+								found = true
+								continue
+							}
+						}
+						other = true
+					}
+				}
+				return true
+			})
+			return found && !other
+		}
+		ast.Inspect(fd.Body, func(n ast.Node) bool {
+			if _, isLit := n.(*ast.FuncLit); isLit {
+				return false
+			}
+			ret, ok := n.(*ast.ReturnStmt)
+			if !ok || len(ret.Results) != 2 {
+				return true
+			}
+			if tv, has := info.Types[ret.Results[1]]; !has || !tv.IsNil() {
+				return true
+			}
+			if !fromLib(ret.Results[0]) {
+				m.problem(ret.Pos(), "the length helper %s returns a length that does not come from the library (%s): the body lexeme is not the value the library delimits", f.Name(), types.ExprString(ret.Results[0]))
+			}
+			return true
+		})
 	}
 	return res
 }
